@@ -237,6 +237,16 @@ func ProfileFor(prop, tier string, seed uint64) *Profile {
 		if thorough {
 			pf.Stmts = [2]int{60, 400}
 		}
+		if v == 5 { // deep: a height-3 tree under a cache of a dozen pages
+			pf.Stmts = [2]int{85, 130}
+			pf.Tables = [2]int{1, 2}
+			pf.WInsert, pf.WDelete, pf.WUpdate, pf.WCreate, pf.WSelect, pf.WFail, pf.WRestart, pf.WRaw = 100, 2, 1, 0, 1, 0, 1, 1
+			pf.MaxRows = 16
+			pf.WideInserts = true
+			pf.CheckEvery = 30
+			pf.BigInsertOnly = true
+			pf.StallP = 0.01
+		}
 	case "C17":
 		pf.DBs = [2]int{2, 4}
 		pf.WUseSwitch, pf.WCreateDB, pf.WShowDB, pf.WBadDB = 12, 4, 3, 5
